@@ -126,6 +126,10 @@ type Spec struct {
 	Clients  []ClientSpec
 	KeepLogs bool
 	Journal  bool
+	// SecondPrepare prepares the same text a second time: "before" the clients start, or "during" their
+	// runs on a goroutine of its own. Clients with Workflow == 1 run on the second prepared workflow
+	// (and wait for it).
+	SecondPrepare string
 	// PrepareOnly stops after Prepare (C05 probe checks, C10, C16).
 	PrepareOnly bool
 	// AfterPrepare, if set, is called on the main client goroutine with the prepared workflow.
@@ -150,6 +154,9 @@ type ClientSpec struct {
 	CancelAtDecision int64 `json:"cancel_at_decision,omitempty"`
 	// CancelAfterUS, when >0, cancels after this much simulated time instead.
 	CancelAfterUS int64 `json:"cancel_after_us,omitempty"`
+	// Workflow selects the prepared workflow the client runs: 0 the first, 1 the second preparation
+	// of the same text (Spec.SecondPrepare).
+	Workflow int `json:"workflow,omitempty"`
 }
 
 // BodyCtx is what a custom body gets.
@@ -296,6 +303,40 @@ func Run(t *testing.T, sp Spec) (res *Result) {
 				if sp.PrepareOnly {
 					return
 				}
+				// a second preparation of the same text
+				wf2Ready := make(chan struct{})
+				var wf2 workflow.ExecutableWorkflow
+				prepareSecond := func() {
+					defer close(wf2Ready)
+					simrt.EnvPoint("env:prepare2", false, 0)
+					w.Log(world.Event{Kind: world.EvClient, Data: map[string]any{"what": "prepare2-begin"}})
+					x, err := env.Prepare(sp.Text, files)
+					if s.Draining() {
+						return
+					}
+					w.Log(world.Event{Kind: world.EvClient, Data: map[string]any{"what": "prepare2-end", "ok": err == nil}})
+					if err != nil {
+						prepErr.Store("second preparation: " + err.Error())
+						return
+					}
+					wf2 = x
+				}
+				var prep2Done <-chan struct{}
+				switch sp.SecondPrepare {
+				case "before":
+					prepareSecond()
+				case "during":
+					done := make(chan struct{})
+					prep2Done = done
+					go func() {
+						defer simrt.Enter("env/prep2")()
+						defer close(done)
+						defer s.Notify()
+						s.Protect("env/prep2", prepareSecond)
+					}()
+				default:
+					close(wf2Ready)
+				}
 				var pending atomic.Int32
 				pending.Store(int32(len(sp.Clients)))
 				allClients := make(chan struct{})
@@ -337,7 +378,15 @@ func Run(t *testing.T, sp Spec) (res *Result) {
 									cancel()
 								}()
 							}
-							id, data, err := wf.Execute(ctx, c.Input)
+							run := wf
+							if c.Workflow == 1 && sp.SecondPrepare != "" {
+								<-wf2Ready
+								if wf2 == nil {
+									return // the second preparation failed (reported as a preparation error)
+								}
+								run = wf2
+							}
+							id, data, err := run.Execute(ctx, c.Input)
 							if s.Draining() {
 								return // released by the teardown of a run that had already been declared stuck
 							}
@@ -365,6 +414,9 @@ func Run(t *testing.T, sp Spec) (res *Result) {
 					}()
 				}
 				<-allClients
+				if prep2Done != nil {
+					<-prep2Done
+				}
 			})
 		}()
 		out := s.Run(func() bool { return allDone.Load() })
